@@ -668,7 +668,7 @@ func c23Events(ids, maxLen, fullPatLen int) []c23Event {
 	var exts [][]c23Ticket
 	for n := 0; n <= maxLen; n++ {
 		vlib.Sequences(ids, n, func(s []int) {
-			pats := 4
+			pats := 5 // 4 = attempts alternate 0,1,0,… (the same id can appear under two attempt numbers)
 			if n == 0 {
 				pats = 1
 			} else if n == 1 {
@@ -690,6 +690,8 @@ func c23Events(ids, maxLen, fullPatLen int) []c23Event {
 						if i == n-1 {
 							a = c23N
 						}
+					case 4:
+						a = i % 2
 					}
 					ext[i] = c23Ticket{ID: l + 1, Attempt: a}
 				}
